@@ -388,18 +388,19 @@ def cache_state(s):
     return tuple(parts)
 
 
-def probe(solver, exprs, bools, build):
+def probe(solver, exprs, bools, build, qkw=None):
     """A fixed set of questions whose answers are functions of the solver's model set only (complete
     enumerations, optima, satisfiability); used to compare a solver with itself before/after something else ran."""
     out = []
+    qkw = qkw or {}
     for e in exprs:
         a = build(e)
         for name, fn in (
-            ("max-u", lambda: solver.max(a)),
-            ("min-u", lambda: solver.min(a)),
-            ("max-s", lambda: solver.max(a, signed=True) & ((1 << len(a)) - 1)),
-            ("min-s", lambda: solver.min(a, signed=True) & ((1 << len(a)) - 1)),
-            ("all", lambda: _complete(solver.eval(a, 70), 70)),
+            ("max-u", lambda: solver.max(a, **qkw)),
+            ("min-u", lambda: solver.min(a, **qkw)),
+            ("max-s", lambda: solver.max(a, signed=True, **qkw) & ((1 << len(a)) - 1)),
+            ("min-s", lambda: solver.min(a, signed=True, **qkw) & ((1 << len(a)) - 1)),
+            ("all", lambda: _complete(solver.eval(a, 70, **qkw), 70)),
         ):
             try:
                 out.append((name, fn()))
@@ -408,12 +409,12 @@ def probe(solver, exprs, bools, build):
             except Exception as ex:  # noqa: BLE001  (a crash is an answer too: it must not change either)
                 out.append((name, "raised:" + type(ex).__name__))
     try:
-        out.append(("sat", solver.satisfiable()))
+        out.append(("sat", solver.satisfiable(**qkw)))
     except Exception as ex:  # noqa: BLE001
         out.append(("sat", "raised:" + type(ex).__name__))
     for c in bools:
         try:
-            out.append(("sat+", solver.satisfiable(extra_constraints=(build(c),))))
+            out.append(("sat+", solver.satisfiable(extra_constraints=(build(c),), **qkw)))
         except Exception as ex:  # noqa: BLE001
             out.append(("sat+", "raised:" + type(ex).__name__))
     return out
